@@ -213,10 +213,13 @@ def _pad_models(t, raster, ax):
     bad = []
     try:
         for ys, xs in (([0, 5, 10, 15, 20, 25, 30], [0, 2, 4]), ([10, 5, 0], [0, 2, 4, 6, 8, 10, 12]), ([0, 5, 10], [4, 2, 0])):
-            for D in (Fr(3), Fr(10), Fr(25, 2), Fr(19)):
-                def hook(x, ys=ys, xs=xs, D=D):
+            for NB, D in [(nb_, d_) for nb_ in ((2, 2), (3, 1), (1, 3)) for d_ in (Fr(3), Fr(10), Fr(25, 2), Fr(19))]:
+                def hook(x, ys=ys, xs=xs, D=D, NB=NB):
                     if not isinstance(x, tuple) or not x:
                         return None
+                    if x[0] == 'index' and isinstance(x[1], tuple) and x[1][:1] == ('attr',) and len(x[1]) == 3 and x[1][2] == 'numblocks' and \
+                            x[1][1] in (raster, ('data', raster)) and x[2][0] == 'const' and x[2][1] in (0, 1, -1, -2):
+                        return NB[x[2][1]]           # how many blocks the raster is split into along that axis
                     if x == ('param', 'max_distance'):
                         return D
                     if x[0] == 'index' and x[1] == ('attr', raster, 'shape') and x[2][0] == 'const' and x[2][1] in (0, 1, -1, -2):
@@ -235,10 +238,11 @@ def _pad_models(t, raster, ax):
                             return len(xs if a_ == 'x' else ys)
                     return None
                 r = eval_term(t, {'__hook__': hook, 'max_distance': D})
-                need = math.floor(D / (5 if ax == 'y' else 2))
+                # an axis that is not split needs no halo
+                need = math.floor(D / (5 if ax == 'y' else 2)) if NB[0 if ax == 'y' else 1] > 1 else 0
                 if r < need:
-                    bad.append('%d x %d raster (cell size 5 along y, 2 along x), max_distance %s: %d cells needed, halo %s'
-                               % (len(ys), len(xs), D, need, r))
+                    bad.append('%d x %d raster in %d x %d blocks (cell size 5 along y, 2 along x), max_distance %s: %d cells needed, halo %s'
+                               % (len(ys), len(xs), NB[0], NB[1], D, need, r))
     except (ValueError, ZeroDivisionError, KeyError, TypeError, IndexError) as e_:
         import os
         if os.environ.get('XRSA_DEBUG'):
